@@ -119,9 +119,11 @@ func (e *Enc) Encode() (err error) {
 	if e.fc != nil {
 		for k := range e.fc.Loops {
 			if k < 1 || k > len(e.loopList) {
-				return fmt.Errorf("%s: contract names loop %d but the function has %d loops", e.fnLabel, k, len(e.loopList))
+				// reported below as a failed obligation: the invariants were stated for a loop the body no longer has
+				e.missingLoops = append(e.missingLoops, k)
 			}
 		}
+		sort.Ints(e.missingLoops)
 	}
 	e.disc = map[*ssa.BasicBlock]map[string]bool{}
 	e.allWrites = map[string]bool{}
@@ -136,6 +138,11 @@ func (e *Enc) Encode() (err error) {
 		li.writes = disc[li.header]
 	}
 	e.encodeBody()
+	for _, k := range e.missingLoops {
+		e.curR = tTrue
+		e.assertOb(fmt.Sprintf("loop-missing#%d", k), tFalse,
+			fmt.Sprintf("the contract states invariants for loop %d, but the body has %d loops", k, len(e.loopList)), token.NoPos)
+	}
 	if e.fc != nil {
 		for i, ac := range e.fc.AtCalls {
 			if !ac.Used {
